@@ -68,6 +68,7 @@ impl P {
 }
 
 fn body_begin(p: &P, kind: &'static str) -> (u64, u64, u64) {
+    let _sus = crate::allocs::Suspend::new();
     let addr = p as *const P as usize;
     let s = p.snapshot();
     if let Some(r) = reg() {
@@ -88,6 +89,7 @@ fn body_begin(p: &P, kind: &'static str) -> (u64, u64, u64) {
 }
 
 fn body_end(p: &P, kind: &'static str, s: (u64, u64, u64)) {
+    let _sus = crate::allocs::Suspend::new();
     let addr = p as *const P as usize;
     let e = p.snapshot();
     if let Some(r) = reg() {
@@ -109,6 +111,7 @@ fn body_end(p: &P, kind: &'static str, s: (u64, u64, u64)) {
 
 impl Clone for P {
     fn clone(&self) -> P {
+        let _sus = crate::allocs::Suspend::new();
         let s = body_begin(self, "clone");
         multiqueue2::verif_hooks::tau("clone_mid", self as *const P as usize);
         body_end(self, "clone", s);
@@ -126,6 +129,7 @@ impl Clone for P {
 
 impl Drop for P {
     fn drop(&mut self) {
+        let _sus = crate::allocs::Suspend::new();
         let addr = self as *const P as usize;
         multiqueue2::verif_hooks::tau("drop", addr);
         if let Some(r) = reg() {
@@ -167,6 +171,7 @@ pub fn slot_access(regy: &Reg, tid: usize, what: &str, addr: usize) {
 }
 
 fn view(p: &P) -> u64 {
+    let _sus = crate::allocs::Suspend::new();
     let s = body_begin(p, "view");
     multiqueue2::verif_hooks::tau("view_mid", p as *const P as usize);
     body_end(p, "view", s);
@@ -175,7 +180,10 @@ fn view(p: &P) -> u64 {
 
 pub type ViewFn = Box<dyn FnMut(&P) -> u64 + Send>;
 fn view_fn() -> ViewFn {
-    Box::new(|p: &P| view(p))
+    Box::new(|p: &P| {
+        let _sus = crate::allocs::Suspend::new();
+        view(p)
+    })
 }
 
 // ---------------------------------------------------------------------------------------------
@@ -415,11 +423,13 @@ pub struct Shared {
 impl Shared {
     /// record the names of the words behind a handle
     pub fn bind(&mut self, h: &H, gid: usize, stream: usize) {
+        let _sus = crate::allocs::Suspend::new();
         self.bind_tok(h, gid, stream, gid)
     }
 
     /// `tokid`: the id under which the handle's memory token is known
     pub fn bind_tok(&mut self, h: &H, gid: usize, stream: usize, tokid: usize) {
+        let _sus = crate::allocs::Suspend::new();
         let l = h.layout();
         let n = &mut self.names;
         n.entry(l.head).or_insert("head".into());
@@ -460,6 +470,7 @@ pub struct Ctx {
 pub struct SchedNotify(pub Option<Arc<Sched>>, pub Arc<Mutex<Vec<usize>>>);
 impl Notify for SchedNotify {
     fn notify(&self, id: usize) {
+        let _sus = crate::allocs::Suspend::new();
         self.1.lock().unwrap().push(id);
         if let Some(s) = &self.0 {
             s.task_notify(id);
@@ -521,7 +532,9 @@ impl Ctx {
         if let Some(s) = &self.sched {
             s.call_begin(text);
         }
-        self.now()
+        let n = self.now();
+        crate::allocs::set_in_call(true);
+        n
     }
 
     fn alloc_gid(&self) -> usize {
@@ -531,6 +544,7 @@ impl Ctx {
     }
 
     fn new_slot(&mut self, h: H, stream: usize, gid: usize) -> usize {
+        let _sus = crate::allocs::Suspend::new();
         self.shared.lock().unwrap().bind(&h, gid, stream);
         self.slots.push(Slot { h: Some(h), gid, stream });
         gid
@@ -997,6 +1011,7 @@ impl Ctx {
                 _ => "unsupported".into(),
             }
         };
+        crate::allocs::set_in_call(false);
         let mut steps = 0;
         if let Some(s) = &self.sched {
             steps = s.inner.lock().unwrap().threads[tid].call_steps;
